@@ -12,11 +12,12 @@ Import ListNotations.
 Open Scope string_scope.
 
 Definition expected_awaits_timer : list sk :=
-  [SMark "initial_delay_check"; SIf [SAwait "aiotime.sleep"] nil; SMark "fresh_state"; SMark "main_loop";
-   SLoop [SMark "reset_if_done"; SIf [SMark "fresh_state"] nil;
-          SMark "idle_check";
+  [SMark "initial_delay_check"; SIf [SAwait "aiotime.sleep"] nil; SMark "no_state_yet"; SMark "main_loop";
+   SLoop [SMark "idle_check";
           SIf [SMark "idle_wait"; SLoop [SMark "idle_delay"; SAwait "aiotime.sleep"];
                SMark "stopped_check"; SIf [SContinue] nil] nil;
+          (* the state (and with it the base of the handler's timeout) is created AFTER the idle wait *)
+          SMark "reset_if_done"; SIf [SMark "fresh_state"] nil;
           SMark "started";
           SAwait "execution.execute_handlers_once";
           SMark "with_outcomes";
